@@ -410,7 +410,7 @@ def gen_hbuild(g, k):
 def gen_newboxed(g, k):
     r = g.r
     c = []
-    for h in (0, 1, 2, 3, 4):
+    for h in (0, 1, 2, 3, 4, 5):
         for total in range(0, 41):
             for ns in range(0, 5):
                 if ns == 0 and total > 0:
@@ -421,13 +421,15 @@ def gen_newboxed(g, k):
                     hdr = bytes([r.randint(0, 10), 0, r.randint(0, 1), 0]) + g.rb(4)
                 elif h == 3:                                      # total_size, reserved: any values
                     hdr = r.choice([g.rb(8), bytes(8), b"\xff" * 8, bytes(4) + b"\xef\xbe\xad\xde"])
+                elif h == 5:                                      # the user-defined 12-byte header {typ, size, extra}
+                    hdr = r.choice([g.rb(12), bytes(12), b"\xff" * 12])
                 elif h == 4:                                      # magic, arch in {0, 4}, length, checksum: any values
                     hdr = r.choice([g.rb(4), b"\xd6\x50\x52\xe8"]) + bytes([r.choice([0, 4]), 0, 0, 0]) + g.rb(8)
                 else:
                     hdr = r.choice([g.rb(8), bytes(8), b"\xff" * 8])
                 for _ in range(k):
                     c.append("newboxed %d %s %s" % (h, hx(hdr), lst(hx(g.rb(n)) for n in lens)))
-        c.append("newboxed %d %s %s" % (h, hx(bytes(16 if h == 4 else 8)), lst([hx(g.rb(1500))])))
+        c.append("newboxed %d %s %s" % (h, hx(bytes({4: 16, 5: 12}.get(h, 8))), lst([hx(g.rb(1500))])))
     return c
 
 
